@@ -41,7 +41,7 @@ Proof. intros [o own [c|]] a v H; simpl in *; [discriminate|reflexivity]. Qed.
 
 Section Proofs.
   Variable ctor : options -> mission -> dict + Z.
-  Variable calc : options -> (string -> option value) -> Z * Z.
+  Variable calc : options -> (string -> option value) -> (Z * Z) + Z.
   Variable iter_once : options -> (string -> option value) -> (Z * Z) + Z.
   Variable small : options -> Z -> bool.
   Variable adjust : (string -> option value) -> Z -> Z * Z.
@@ -60,6 +60,7 @@ Section Proofs.
   Notation iterate := (iterate iter_once small adjust).
   Variable gfix : bool.
   Notation prepare := (prepare calc gfix).
+  Notation body_after := (body_after iter_once small adjust).
   Notation body := (body calc iter_once small adjust gfix).
   Notation fly := (fun g => fly ctor calc iter_once small adjust g gfix).
   Notation run := (fun g => run ctor calc iter_once small adjust g gfix).
@@ -208,7 +209,12 @@ Section Proofs.
     - simpl. auto.
   Qed.
 
-  Lemma sim_prepare : forall b1 b2, sim b1 b2 -> armed b1 -> sim (prepare b1) (prepare b2) /\ armed (prepare b1).
+  Lemma sim_prepare : forall b1 b2, sim b1 b2 -> armed b1 ->
+    match prepare b1, prepare b2 with
+    | inl d1, inl d2 => sim d1 d2 /\ armed d1
+    | inr e1, inr e2 => e1 = e2
+    | _, _ => False
+    end.
   Proof.
     intros b1 b2 H Ha. unfold C17_Model.prepare.
     rewrite <- (sim_getattr b1 b2 "starting_mass" H starting_mass_read).
@@ -216,33 +222,33 @@ Section Proofs.
     destruct (getattr b1 "starting_mass") as [[v|]|]; auto.
     - destruct gfix; auto.
       rewrite <- Ho. rewrite <- (calc_reads (b_opts b1) (view b1) (view b2) (sim_view _ _ H)).
-      destruct (calc (b_opts b1) (view b1)) as [sm tf]. split.
+      destruct (calc (b_opts b1) (view b1)) as [[sm tf]|e]; auto. split.
       + apply sim_setattr; auto. left. apply armed_left; auto.
       + apply armed_setattr; auto.
     - rewrite <- Ho. rewrite <- (calc_reads (b_opts b1) (view b1) (view b2) (sim_view _ _ H)).
-      destruct (calc (b_opts b1) (view b1)) as [sm tf]. split.
+      destruct (calc (b_opts b1) (view b1)) as [[sm tf]|e]; auto. split.
       + apply sim_setattr.
         * apply sim_setattr; auto. left. apply armed_left; auto.
         * left. apply armed_left; [apply armed_setattr; auto|auto].
       + repeat apply armed_setattr; auto.
   Qed.
 
-  Lemma prepare_opts_armed : forall b, armed b -> b_opts (prepare b) = b_opts b /\ armed (prepare b).
+  Lemma prepare_opts_armed : forall b d, armed b -> prepare b = inl d -> b_opts d = b_opts b /\ armed d.
   Proof.
-    intros b Ha. unfold C17_Model.prepare. destruct (getattr b "starting_mass") as [[v|]|]; auto.
-    - destruct gfix; auto. destruct (calc (b_opts b) (view b)) as [sm tf]. rewrite setattr_opts. split; auto.
-      apply armed_setattr; auto.
-    - destruct (calc (b_opts b) (view b)) as [sm tf]. rewrite !setattr_opts. split; auto.
-      repeat apply armed_setattr; auto.
+    intros b d Ha. unfold C17_Model.prepare. destruct (getattr b "starting_mass") as [[v|]|].
+    - destruct gfix.
+      + destruct (calc (b_opts b) (view b)) as [[sm tf]|e]; intros H; inversion H; subst.
+        rewrite setattr_opts. split; auto. apply armed_setattr; auto.
+      + intros H; inversion H; subst; auto.
+    - destruct (calc (b_opts b) (view b)) as [[sm tf]|e]; intros H; inversion H; subst.
+      rewrite !setattr_opts. split; auto. repeat apply armed_setattr; auto.
+    - intros H; inversion H; subst; auto.
   Qed.
 
-  Lemma sim_body : forall b1 b2, sim b1 b2 -> armed b1 ->
-    sim (fst (body b1)) (fst (body b2)) /\ snd (body b1) = snd (body b2).
+  Lemma sim_body_after : forall d1 d2, sim d1 d2 -> armed d1 ->
+    sim (fst (body_after d1)) (fst (body_after d2)) /\ snd (body_after d1) = snd (body_after d2).
   Proof.
-    intros b1 b2 H Ha. unfold C17_Model.body.
-    destruct (sim_prepare b1 b2 H Ha) as (Hd & Had).
-    set (d1 := prepare b1) in *. set (d2 := prepare b2) in *.
-    assert (Hdd : sim d1 d2 /\ armed d1) by auto.
+    intros d1 d2 Hd Had. unfold C17_Model.body_after.
     assert (Hod : b_opts d1 = b_opts d2) by (destruct Hd; auto).
     rewrite <- Hod. destruct (o_optimize (b_opts d1)); simpl; [split; auto|].
     destruct (sim_fly_iteration d1 d2 Hd Had) as (S1 & S2 & S3).
@@ -258,6 +264,26 @@ Section Proofs.
     - split; auto.
       rewrite (sim_getattr x1 x2 "starting_mass" S1 starting_mass_read).
       rewrite (sim_getattr x1 x2 "total_fuel_mass" S1 total_fuel_mass_read). reflexivity.
+  Qed.
+
+  Lemma sim_body : forall b1 b2, sim b1 b2 -> armed b1 ->
+    sim (fst (body b1)) (fst (body b2)) /\ snd (body b1) = snd (body b2).
+  Proof.
+    intros b1 b2 H Ha. unfold C17_Model.body.
+    pose proof (sim_prepare b1 b2 H Ha) as Hp.
+    destruct (prepare b1) as [d1|e1]; destruct (prepare b2) as [d2|e2]; try contradiction.
+    - destruct Hp as (Hd & Had). apply sim_body_after; auto.
+    - subst e2. simpl. split; auto.
+  Qed.
+
+  Lemma body_after_opts : forall d, armed d -> b_opts (fst (body_after d)) = b_opts d.
+  Proof.
+    intros d Had. unfold C17_Model.body_after. destruct (o_optimize (b_opts d)); simpl; auto.
+    destruct (fly_iteration_opts_armed d Had) as (Hx & Hax).
+    destruct (fly_iteration d) as [x [[t r]|e0]]; simpl in Hx, Hax |- *; auto.
+    destruct (o_iterate (b_opts x)); simpl; auto.
+    pose proof (iterate_opts_ctx (Nat.pred (o_max_iters (b_opts x))) x t r Hax) as Hi.
+    destruct (iterate _ x t r) as [z w]. simpl in Hi. destruct w; simpl; congruence.
   Qed.
 
   Lemma sim_del : forall b1 b2, sim b1 b2 -> sim (del_ctx b1) (del_ctx b2).
@@ -302,15 +328,8 @@ Section Proofs.
       assert (Ha : armed e).
       { unfold armed, has_ctx_attr, e, c'; simpl. rewrite !has_update. simpl. split; auto. }
       assert (Hb : b_opts (fst (body e)) = b_opts b).
-      { unfold C17_Model.body.
-        set (d := prepare e).
-        assert (Hd : b_opts d = b_opts b /\ armed d) by (apply (prepare_opts_armed e Ha)).
-        destruct Hd as (Hd & Had). destruct (o_optimize (b_opts d)); simpl; auto.
-        destruct (fly_iteration_opts_armed d Had) as (Hx & Hax). rewrite Hd in Hx.
-        destruct (fly_iteration d) as [x [[t r]|e0]]; simpl in Hx, Hax |- *; auto.
-        destruct (o_iterate (b_opts x)); simpl; auto.
-        pose proof (iterate_opts_ctx (Nat.pred (o_max_iters (b_opts x))) x t r Hax) as Hi.
-        destruct (iterate _ x t r) as [z w]. simpl in Hi. destruct w; simpl; congruence. }
+      { unfold C17_Model.body. destruct (prepare e) as [d|e0] eqn:Ep; [|reflexivity].
+        destruct (prepare_opts_armed e d Ha Ep) as (Hd & Had). rewrite body_after_opts; auto. }
       destruct (body e) as [b' out]. simpl in *. exact Hb.
     Qed.
 
@@ -398,12 +417,12 @@ Section Proofs.
   Theorem guarded_never_raises_internal_error : forall b m, snd (fly true b m) <> Raised AttrCtx.
   Proof.
     intros b m. unfold C17_Model.fly. destruct (ctor (b_opts b) m) as [c|r].
-    - set (e := mkb _ _ _). unfold C17_Model.body.
-      set (d := prepare e).
+    - set (e := mkb _ _ _). unfold C17_Model.body. destruct (prepare e) as [d|e0]; [|simpl; discriminate].
+      unfold C17_Model.body_after.
       destruct (o_optimize (b_opts d)); simpl; [discriminate|].
-      destruct (fly_iteration d) as [x [[t r]|e0]]; simpl; [|discriminate].
+      destruct (fly_iteration d) as [x [[t r]|e1]]; simpl; [|discriminate].
       destruct (o_iterate (b_opts x)); simpl; [|discriminate].
-      destruct (iterate _ x t r) as [z [t3|e1]]; simpl; discriminate.
+      destruct (iterate _ x t r) as [z [t3|e2]]; simpl; discriminate.
     - destruct (b_ctx b); simpl; discriminate.
   Qed.
 
@@ -446,7 +465,7 @@ End Proofs.
 (* ---- the finding F15 as a concrete witness: the constructor refuses (reason 7), fly reports the
         AttributeError of `del self.ctx` instead ---- *)
 Definition w_ctor (_ : options) (_ : mission) : dict + Z := inr 7%Z.
-Definition w_calc (_ : options) (_ : string -> option value) : Z * Z := (0, 0)%Z.
+Definition w_calc (_ : options) (_ : string -> option value) : (Z * Z) + Z := inl (0, 0)%Z.
 Definition w_iter (_ : options) (_ : string -> option value) : (Z * Z) + Z := inl (0, 0)%Z.
 Definition w_small (_ : options) (_ : Z) : bool := true.
 Definition w_adjust (_ : string -> option value) (_ : Z) : Z * Z := (0, 0)%Z.
@@ -461,7 +480,7 @@ Proof. exists (mkmission 0 None). repeat split; try reflexivity. discriminate. Q
 
 (* non-vacuity of the history theorem: a history with a failing and a succeeding flight, replayed oracles *)
 Example history_nonvacuous :
-  let ss := [mkscript None [inl (10%Z, true)]; mkscript (Some 3%Z) []; mkscript None [inl (11%Z, false); inr 5%Z]] in
+  let ss := [mkscript None None [inl (10%Z, true)]; mkscript (Some 3%Z) None []; mkscript None None [inl (11%Z, false); inr 5%Z]] in
   run_history true true (repeat (mkopts false true 5 0) 4) ss [0; 1; 2; 0]%Z [None; None; None; None]
   = ([SFlown 10 1; SReason 3; SReason 5; SFlown 10 1], true, ["current_mass"]) /\
   run_history false true (repeat (mkopts false true 5 0) 4) ss [0; 1; 2; 0]%Z [None; None; None; None]
@@ -472,7 +491,7 @@ Proof. split; vm_compute; reflexivity. Qed.
 Definition view_t := string -> option value.
 (* the flight code sees the builder only through reads of the names in [reads]; "current_mass", the one name a
    flight leaves on the builder itself, is not among them; the two mass attributes are *)
-Definition reads_only (calc : options -> view_t -> Z * Z) (iter_once : options -> view_t -> (Z * Z) + Z)
+Definition reads_only (calc : options -> view_t -> (Z * Z) + Z) (iter_once : options -> view_t -> (Z * Z) + Z)
     (adjust : view_t -> Z -> Z * Z) (reads : list string) : Prop :=
   (forall o v1 v2, agree reads v1 v2 -> calc o v1 = calc o v2) /\
   (forall o v1 v2, agree reads v1 v2 -> iter_once o v1 = iter_once o v2) /\
@@ -563,33 +582,39 @@ Proof. intros. unfold ctx_of. apply lookup_update_eq. Qed.
 Theorem given_mass_fuel_load_undefined_before_fix : forall calc o own c m,
   lookup "starting_mass" own = None -> lookup "total_fuel_mass" own = None ->
   let e := mkb o own (Some (ctx_of c (Some m))) in
-  getattr (prepare calc false e) "total_fuel_mass" = Some None.
+  prepare calc false e = inl e /\ getattr e "total_fuel_mass" = Some None.
 Proof.
   intros calc o own c m H1 H2 e. unfold prepare, getattr, e. simpl. rewrite H1, ctx_of_sm. simpl.
-  rewrite H2, ctx_of_tf. reflexivity.
+  rewrite H2, ctx_of_tf. auto.
 Qed.
 
 (* with the fuel load derived either way, it is defined before the first iteration, given mass or not *)
-Theorem fuel_load_defined_before_first_iteration : forall calc o own c given,
+Theorem fuel_load_defined_before_first_iteration : forall calc o own c given sm tf,
   lookup "starting_mass" own = None -> lookup "total_fuel_mass" own = None ->
   let e := mkb o own (Some (ctx_of c given)) in
-  getattr (prepare calc true e) "total_fuel_mass" = Some (Some (snd (calc o (view e)))) /\
-  getattr (prepare calc true e) "starting_mass" =
-    Some (Some (match given with Some m => m | None => fst (calc o (view e)) end)).
+  calc o (view e) = inl (sm, tf) ->
+  exists d, prepare calc true e = inl d /\
+    getattr d "total_fuel_mass" = Some (Some tf) /\
+    getattr d "starting_mass" = Some (Some (match given with Some m => m | None => sm end)).
 Proof.
-  intros calc o own c given H1 H2 e.
+  intros calc o own c given sm tf H1 H2 e Ec.
   assert (Hsm0 : getattr e "starting_mass" = Some given).
   { unfold getattr, e; simpl. rewrite H1, ctx_of_sm. reflexivity. }
   unfold prepare. rewrite Hsm0.
   assert (Htf : has "total_fuel_mass" (ctx_of c given) = true) by (unfold has; rewrite ctx_of_tf; reflexivity).
-  destruct given as [m|]; simpl.
-  - destruct (calc o (view e)) as [sm tf] eqn:Ec. simpl.
+  destruct given as [m|]; simpl; rewrite Ec.
+  - eexists. split; [reflexivity|].
     unfold setattr, e; simpl. rewrite Htf. unfold getattr; simpl. rewrite H1, H2.
     rewrite lookup_update_eq. rewrite lookup_update_neq by discriminate. rewrite ctx_of_sm. auto.
-  - destruct (calc o (view e)) as [sm tf] eqn:Ec. simpl.
+  - eexists. split; [reflexivity|].
     unfold setattr, e; simpl. rewrite Htf. simpl.
     assert (Hsm : has "starting_mass" (update "total_fuel_mass" (Some tf) (ctx_of c None)) = true).
     { rewrite has_update. simpl. unfold has. rewrite ctx_of_sm. reflexivity. }
     rewrite Hsm. unfold getattr; simpl. rewrite H1, H2.
     rewrite lookup_update_eq. rewrite lookup_update_neq by discriminate. rewrite lookup_update_eq. auto.
 Qed.
+
+(* calc_starting_mass itself can refuse (cruise level outside the table): that reason is the one reported *)
+Theorem calc_refusal_surfaces : forall calc iter_once small adjust gfix b e,
+  prepare calc gfix b = inr e -> body calc iter_once small adjust gfix b = (b, Raised (Reason e)).
+Proof. intros. unfold body. rewrite H. reflexivity. Qed.
